@@ -142,8 +142,13 @@ def run_one(job):
         open(os.path.join(dst, SRC, rel), "w").write(source)
         env = dict(os.environ, PYAB_REPO=dst, PYTHONPATH=os.path.join(dst, "src"), PYTHONDONTWRITEBYTECODE="1", VERIF_JOBS=str(njobs))
         try:
-            t = subprocess.run(["/venv/bin/python", "-m", "pytest", "-q", "-p", "no:cacheprovider", "-x", "-n", "4", "--timeout=120"], cwd=dst, env=env, capture_output=True, text=True, timeout=600)
+            # fast part of the suite first (most broken mutants die here), then the whole suite
+            fast = ["tests/unit/test_experiment_files.py", "tests/unit/test_experiment_evaluator.py", "tests/unit/test_field_comparison.py", "tests/unit/test_unroutable_conditional.py"]
+            t = subprocess.run(["/venv/bin/python", "-m", "pytest", "-q", "-p", "no:cacheprovider", "-x", "--timeout=120", *fast], cwd=dst, env=env, capture_output=True, text=True, timeout=600)
             tests_ok = t.returncode == 0
+            if tests_ok:
+                t = subprocess.run(["/venv/bin/python", "-m", "pytest", "-q", "-p", "no:cacheprovider", "-x", "-n", "4", "--timeout=120"], cwd=dst, env=env, capture_output=True, text=True, timeout=600)
+                tests_ok = t.returncode == 0
         except subprocess.TimeoutExpired:
             tests_ok = False
         out = {"file": rel, "mutant": desc, "tests_pass": tests_ok, "caught_by": [], "faults": []}
